@@ -34,7 +34,8 @@ RULE = ('case = pre-existing sys / threading trace functions (none or a host fun
         'or a pre-existing trace function was present, or NO_TRACE. start/shutdown of the model are the TRANSLATED method '
         'bodies (Extracted.DeepLC plans run by Lifecycle.execPlan). Separate stream (outside the quantifier, correspondence '
         'only): one service call of the first Deep.start raises (load_plugins / trigger_handler.start / grpc.start / '
-        'poll.start), retry, shutdown.')
+        'resource creation / poll.start), retry, shutdown. Labelled known-finding streams: shutdown on another thread; a loaded '
+        'plugin whose `shutdown` attribute cannot be read (Deep.shutdown raises before any step).')
 TRUSTED = ['sys.settrace / threading.settrace / Thread.join / ThreadPoolExecutor behave as documented (CPython)',
            'the translated TriggerHandler.start/shutdown/new_config (Extracted.TH) — validated by this correspondence run']
 ASSUMPTIONS = ['the host does not change the trace functions itself between start and shutdown',
@@ -57,7 +58,7 @@ class StartFails(Exception):
     pass
 
 
-def make_plugin_class(name, rec, fail_shutdown, order=0, order_raises=False):
+def make_plugin_class(name, rec, fail_shutdown, order=0, order_raises=False, unreadable=False):
     """a plugin class `load_plugins` can construct with `plugin(config=config)`"""
     def __init__(self, config=None):
         fc_env.FcPlugin.__init__(self, name, rec, {}, order)
@@ -77,6 +78,11 @@ def make_plugin_class(name, rec, fail_shutdown, order=0, order_raises=False):
 
     def log_tracepoint(self, log_msg, tp_id, ctx_id):
         self.rec.add(name, 'log', (tp_id, log_msg))
+    if unreadable:
+        # the `shutdown` ATTRIBUTE cannot be read (known finding C14/plugin-shutdown-attribute-unreadable)
+        def _no_shutdown(self):
+            raise AttributeError(name + ' has no usable shutdown')
+        shutdown = property(_no_shutdown)
     return type(name, (fc_env.FcPlugin, fc_env.TracepointLogger),
                 {'__init__': __init__, 'shutdown': shutdown, 'log_tracepoint': log_tracepoint, 'order': order_,
                  'is_active': lambda self: True})
@@ -188,12 +194,16 @@ def gen(rng, tier):
             yield {'kind': 'handler', 'pre_sys': base['pre_sys'], 'pre_thr': base['pre_thr'], 'ops': ops}
         if rng.random() < 0.08:
             yield dict(OTHER_THREAD, own_hook=rng.random() < 0.5)       # labelled known-finding stream
+        if rng.random() < 0.08:
+            k = rng.randint(1, 3)                                       # labelled known-finding stream
+            yield dict(UNREADABLE, nplug=k, unreadable=[rng.randrange(k)], pre_sys=rng.choice([None, 'h']),
+                       pre_thr=rng.choice([None, 'h']))
         if rng.random() < 0.3:
             # separate stream (outside C14's quantifier, compared with the translated Deep.start only): one service call
             # of the first start raises, the application retries, then shuts down
             c = dict(base)
             c['update'] = False
-            c['start_step_fails'] = rng.choice(['load_plugins', 'th_start', 'grpc_start', 'poll_start'])
+            c['start_step_fails'] = rng.choice(['load_plugins', 'resource_create', 'th_start', 'grpc_start', 'poll_start'])
             c['ops'] = [{'op': 'start'}, {'op': 'start'}, {'op': 'hit'},
                         {'op': 'shutdown', 'plugin_faults': [], 'task_faults': [], 'ntask': 0, 'cls': 'exc', 'running': False},
                         {'op': 'hit'}]
@@ -210,18 +220,31 @@ def gen(rng, tier):
 
 # known finding C14/shutdown-on-another-thread: sys.settrace is per thread
 OTHER_THREAD = {'kind': 'other_thread', 'own_hook': True}
+# known finding C14/plugin-shutdown-attribute-unreadable: `steps` is built outside the per-step try of Deep.shutdown
+UNREADABLE = {'pre_sys': 'h', 'pre_thr': None, 'no_trace': False, 'nplug': 2, 'unreadable': [1], 'update': False,
+              'ops': [{'op': 'start'}, {'op': 'hit'},
+                      {'op': 'shutdown', 'plugin_faults': [], 'task_faults': [], 'ntask': 0, 'cls': 'exc', 'running': False}]}
 
 
 def known_replays():
     return [('C14/shutdown-on-another-thread',
              'start() on thread A and shutdown() on thread B: sys.settrace acts on the calling thread only, so A keeps the '
              'agent\'s trace function after the shutdown and B\'s own trace function is replaced by what A had before start',
-             dict(OTHER_THREAD))]
+             dict(OTHER_THREAD)),
+            ('C14/plugin-shutdown-attribute-unreadable',
+             'a loaded plugin whose `shutdown` attribute cannot be read: Deep.shutdown builds its list of steps outside the '
+             'per-step try, raises before any step, the hooks stay the agent\'s and started stays True',
+             dict(UNREADABLE))]
 
 
 def known_finding(case, obs):
-    # structural: shutdown is called on another thread than start (labelled stream only)
-    return 'C14/shutdown-on-another-thread' if case.get('kind') == 'other_thread' else None
+    # structural: shutdown is called on another thread than start / a loaded plugin has an unreadable `shutdown`
+    # attribute (labelled streams only)
+    if case.get('kind') == 'other_thread':
+        return 'C14/shutdown-on-another-thread'
+    if case.get('unreadable'):
+        return 'C14/plugin-shutdown-attribute-unreadable'
+    return None
 
 
 def corpus():
@@ -301,7 +324,7 @@ def run_case(case, out):
     for i in range(case['nplug']):
         ff = [None]
         of = [False]
-        cls = make_plugin_class(f'P{i}', rec, ff, 0, of)
+        cls = make_plugin_class(f'P{i}', rec, ff, 0, of, unreadable=i in case.get('unreadable', []))
         setattr(mod, f'P{i}', cls)
         fail_flags.append(ff)
         order_flags.append(of)
@@ -334,6 +357,14 @@ def run_case(case, out):
             dmod.load_plugins = orig_load
             raise StartFails('plugins cannot be loaded')
         dmod.load_plugins = failing_once2
+    orig_resource = dmod.Resource
+    if step_fails == 'resource_create':
+        class _FailingOnce:
+            @staticmethod
+            def create(*a, **k):
+                dmod.Resource = orig_resource
+                raise StartFails('the resource cannot be created')
+        dmod.Resource = _FailingOnce
     # the service: NO_CHANGE, or (part of the cases) an UPDATE that carries the tracepoint
     g['grpc'].update = ([{'id': 'hit', 'path': h.files['probe'], 'line': h.marks['probe']['P'],
                           'args': {'snapshot': 'no_collect', 'log_msg': 'hit {c}', 'fire_count': '-1', 'fire_period': '0'}}]
@@ -631,6 +662,7 @@ def run_case(case, out):
         except BaseException:       # noqa: B902
             pass
         dmod.load_plugins = orig_load
+        dmod.Resource = orig_resource
         g['grpc'].update = None
         sys.settrace(None)
         threading.settrace(old_thr)
@@ -784,7 +816,7 @@ def oracle(case, obs):
             v.append(f'start with a failing {case["start_step_fails"]}: first start raised {starts[0]["raised"]}, retry raised '
                      f'{starts[1]["raised"]} started {starts[1]["started"]}')
         v += [f'host function returned {st["ret"]}' for st in obs['states'] if st['op'] == 'hit' and st['ret'] != 11]
-        if case['start_step_fails'] in ('load_plugins', 'th_start'):
+        if case['start_step_fails'] in ('load_plugins', 'resource_create', 'th_start'):
             # the boundary of c14_failed_start_unchanged_partial: a start that fails BEFORE the hooks are touched changes
             # nothing, so after the retry and the shutdown the trace functions are the pre-existing ones
             first = starts[0] if starts else None
@@ -894,7 +926,8 @@ def model_request(case, obs):
             ops.append({'op': 'new_config', 'cfg': [1]})
         elif k == 'shutdown':
             ops.append({'op': 'shutdown', 'plugin_faults': op['plugin_faults'], 'task_faults': op['task_faults'],
-                        'base': op['cls'] == 'base', 'tasks': list(range(op.get('ntask', 0)))})
+                        'base': op['cls'] == 'base', 'tasks': list(range(op.get('ntask', 0))),
+                        'attr_unreadable': list(case.get('unreadable', []))})
         elif k == 'host_set':
             ops.append({'op': 'host_set', 'sys': op['sys'], 'thr': op['thr']})
         elif k == 'late_config':
@@ -957,6 +990,8 @@ def compare(case, obs, resp):
 
 
 def label(case, obs):
+    if case.get('unreadable'):
+        return 'known-finding-stream/unreadable-shutdown-attribute'
     if case.get('kind'):
         return 'known-finding-stream/other-thread' if case['kind'] == 'other_thread' else 'handler-cycles'
     sd = [o for o in case['ops'] if o['op'] == 'shutdown']
